@@ -59,6 +59,15 @@ func (o *oC14) OnEvent(k *Kernel, ev *Event) {
 func (o *oC14) OnQuiescent(k *Kernel) {}
 
 func (o *oC14) OnIdle(k *Kernel) {
+	// the crawl has drained and every stage worker sits in its select: a Pause() or Resume() that has not returned by now never will
+	for _, c := range o.r.ctl {
+		switch c.a.Kind {
+		case "pause", "resume", "resume-pause":
+			if c.fired && !c.done {
+				k.Violate("C14", "calls-return", "controller-call-blocked", fmt.Sprintf("controller action %q (%s) was issued and has not returned although the pipeline is idle; parked: %v", c.a.Name, c.a.Kind, k.ParkedSummary()))
+			}
+		}
+	}
 	if len(o.acked) > 0 && !realpause.IsPaused() {
 		var who []string
 		for _, w := range o.acked {
